@@ -5,7 +5,7 @@ from .. import catalog as CAT
 
 ID = "C13"
 LEAN_MODULE = "Ucfg.Props.C13"
-LEVEL_TEXT = 'Frame theorems per field (skipped, unmentioned primitive/pointer fields unchanged; list lengths) and lifted to whole structs (struct_frame, unpack_frame: after a successful Unpack every field the configuration has nothing for - at any position among any other fields - holds what it held); atomicity on failure and the frame of whole results are oracles on the implementation (shallow key before/after incl. slice elements; catalogue types for Validate ordering).'
+LEVEL_TEXT = 'Frame theorems per field, lifted to whole structs (struct_frame, unpack_frame) and RECURSIVELY (unpack_frame_rec: after a successful Unpack into a struct of any field types, everything the configuration has nothing for - ignored / unexported fields, fields without a setting or with a null one - holds what it held at every depth reachable through struct fields, non-nil pointers and fixed-size arrays; induction over the fuel with a claim for mergeValue / reifyStructT / getField / doArray); slices and map entries are rebuilt by policy: their frames, atomicity on failure and the frame of whole results are oracles on the implementation (recursive frame oracle frameRec, shallow key before/after incl. slice elements; catalogue types for Validate ordering).'
 CORRESPONDENCE = "Unpack.{reifyStructT,getField',mergeValue,sliceMerge} ~ (*Config).Unpack into pre-filled reflect.StructOf targets"
 RULE = ("C04's type generator with pre-filled targets (every field holds a random value of its type) x configurations mentioning a "
         "random subset of the fields (possibly none) x slice policies (append/prepend/replace/merge tags and global options) x one fault "
